@@ -159,6 +159,9 @@ def const(v):
     return float(v[0]), float(np.max(np.abs(v - v[0])))
 
 
+UNREACHED = [0]
+
+
 def run_est(kind, df, meta, gen, stab, rx, fS=None, fA=None, fQ=None):
     """one estimator run -> {'rd','rr', tables ps/pa/q1/q0 (per stratum), nS, nA, spread} or {'error': ...}"""
     from zepid.causal.generalize import IPSW, GTransportFormula, AIPSW
@@ -170,15 +173,19 @@ def run_est(kind, df, meta, gen, stab, rx, fS=None, fA=None, fQ=None):
     otype = meta['outcome']
     # the flag as computed from data ((df.S == 1).any(), an element of a boolean array) is a numpy.bool_, not the singleton True
     gen = np.bool_(gen) if len(df) % 2 == 0 else bool(gen)
+    # a truncation bound that no fitted probability reaches (cells hold at least one row of each kind, so every saturated
+    # probability is >= 1/n) must not change anything: passed on every third run
+    UNREACHED[0] += 1
+    bkw = {'bound': 1e-6} if UNREACHED[0] % 3 == 1 else {}
     try:
         with IptwSpy() as spy:
             if kind == 'IPSW':
                 dfc = df.copy()
                 e = IPSW(dfc, exposure='A', outcome='Y', selection='S', generalize=gen)
                 ec.scramble(dfc)          # the caller's own frame changes after construction: the estimator must not care
-                e.sampling_model(fS, stabilized=stab, print_results=False)
+                e.sampling_model(fS, stabilized=stab, print_results=False, **bkw)
                 if rx:
-                    e.treatment_model(fA, stabilized=stab, print_results=False)
+                    e.treatment_model(fA, stabilized=stab, print_results=False, **bkw)
                 e.fit()
                 REFIT[0] += 1
                 if REFIT[0] % 2 == 0:
@@ -219,7 +226,7 @@ def run_est(kind, df, meta, gen, stab, rx, fS=None, fA=None, fQ=None):
                 ec.scramble(dfc)
                 e.sampling_model(fS, stabilized=stab, print_results=False)
                 if rx:
-                    e.treatment_model(fA, stabilized=stab, print_results=False)
+                    e.treatment_model(fA, stabilized=stab, print_results=False, **bkw)
                 e.outcome_model(fQ, outcome_type=otype, print_results=False)
                 e.fit()
                 REFIT[0] += 1
